@@ -446,7 +446,7 @@ theorem custody_ge_remaining (ops : List Op) (l : Ledger) (hl : l = run Ledger.e
     remGauges l.gauges + remExts l.exts + remSfs l.sfs ≤ l.bal ∧
     ∀ g ∈ l.gauges, 0 ≤ gaugeRem g ∧ 0 ≤ g.distributed ∧ g.triggered ≤ g.total := by
   subst hl
-  obtain ⟨hg, hb⟩ := run_inv Ledger.empty ops empty_inv
+  obtain ⟨⟨hg, hb⟩, _⟩ := run_inv Ledger.empty ops empty_inv empty_sinv
   refine ⟨hb, fun g hgm => ?_⟩
   have h := hg g hgm
   have := GInv_le_deposit g h
@@ -459,27 +459,61 @@ theorem custody_ge_active_remaining (ops : List Op) (l : Ledger) (hl : l = run L
     (hx : ∀ x ∈ l.exts, 0 ≤ x.avail) :
     remActiveGauges l.gauges + remActiveExts l.exts + remSfs l.sfs ≤ l.bal := by
   subst hl
-  obtain ⟨hg, hb⟩ := run_inv Ledger.empty ops empty_inv
+  obtain ⟨⟨hg, hb⟩, _⟩ := run_inv Ledger.empty ops empty_inv empty_sinv
   have h1 := remActiveGauges_le _ hg
   have h2 := remActiveExts_le _ hx
   omega
 
 /-- **One swap-fee epoch**: what is handed out is at most what the gauge collected at the previous epoch (its
-`DepositAmount`), every coin is non-negative, nothing is handed out from an empty gauge; and the record ALWAYS moves by
-exactly what was paid and what arrived — `deposit' = deposit − paid + received`, `distributed' = distributed + paid` —,
-also when the fee transfer fails (then nothing arrives and the epoch is not counted). -/
+`DepositAmount`), every coin is non-negative, nothing is handed out from an empty gauge, the payment is always booked
+(`distributed' = distributed + paid`); in the gauge's denomination the record moves by exactly what was paid and what
+arrived (`deposit' = deposit − paid + received`) — also when the fee transfer fails (nothing arrives, epoch not counted) —,
+except when the fees arrive in ANOTHER denomination (`SwapFeeDistrDenom` changed): then the deposit of this denomination is
+dropped to 0 (never relabelled), i.e. owed ≤ deposit − paid. -/
 theorem sf_epoch_pays_le_collected (g g' : SfGauge) (d : DistData) (x : Xfer) (sends : List Int) (recv : Int)
-    (h : sfTrigger g d x = .ok (g', sends, recv)) :
-    (∀ r ∈ sends, 0 ≤ r) ∧ 0 ≤ recv ∧ (0 < g.deposit → sumL sends ≤ g.deposit) ∧ (g.deposit ≤ 0 → sends = []) ∧
-    g'.deposit = g.deposit - sumL sends + recv ∧ g'.distributed = g.distributed + sumL sends ∧
-    (x = .err → recv = 0 ∧ g'.triggered = g.triggered) := by
-  obtain ⟨h1, h2, h3, h4, h5, h6, hc⟩ := sfTrigger_cases g g' d x sends recv h
-  refine ⟨h1, h2, h3, h4, h5, h6, ?_⟩
-  intro hx
-  rcases hc with ⟨rfl, hr, _⟩ | ⟨_, hr, ht⟩ | ⟨amt, hxa, _, _⟩
-  · exact ⟨hr, rfl⟩
-  · exact ⟨hr, ht⟩
-  · rw [hx] at hxa; cases hxa
+    (h : sfTrigger g d x = .ok (g', sends, recv)) (hg : 0 ≤ g.deposit) :
+    (∀ r ∈ sends, 0 ≤ r) ∧ 0 ≤ recv ∧ sumL sends ≤ g.deposit ∧
+    g'.distributed = g.distributed + sumL sends ∧ 0 ≤ g'.deposit ∧ g'.deposit ≤ g.deposit - sumL sends + recv ∧
+    ((∀ amt, x ≠ .moved amt) → g'.deposit = g.deposit - sumL sends + recv) ∧
+    (x = .err → recv = 0 ∧ g'.triggered = g.triggered) ∧ (∀ amt, x = .moved amt → g'.triggered = g.triggered + 1 → g'.deposit = 0 ∧ recv = 0) := by
+  obtain ⟨h1, h2, h3, h4, h6, hc⟩ := sfTrigger_cases g g' d x sends recv h
+  obtain ⟨hn, hle⟩ := sfTrigger_deposit_nonneg g g' d x sends recv h hg
+  have hs : sumL sends ≤ g.deposit := by
+    by_cases hp : 0 < g.deposit
+    · exact h3 hp
+    · have := h4 (by omega); subst this; simp [sumL]; omega
+  refine ⟨h1, h2, hs, h6, hn, hle, ?_, ?_, ?_⟩
+  · intro hx
+    rcases hc with ⟨rfl, rfl, rfl⟩ | ⟨_, rfl, _, hd⟩ | ⟨amt, _, rfl, _, hd⟩ | ⟨amt, hm, _⟩
+    · simp [sumL]
+    · omega
+    · omega
+    · exact absurd hm (hx amt)
+  · intro hx
+    rcases hc with ⟨rfl, hr, _⟩ | ⟨_, hr, ht, _⟩ | ⟨amt, hxa, _⟩ | ⟨amt, hxa, _⟩
+    · exact ⟨hr, rfl⟩
+    · exact ⟨hr, ht⟩
+    · rw [hx] at hxa; cases hxa
+    · rw [hx] at hxa; cases hxa
+  · intro amt hx ht
+    rcases hc with ⟨rfl, hr, rfl⟩ | ⟨hxe, _⟩ | ⟨a, hxa, _⟩ | ⟨a, _, hr, _, hd⟩
+    · omega
+    · rw [hx] at hxe; cases hxe
+    · rw [hx] at hxa; cases hxa
+    · exact ⟨hd, hr⟩
+
+/-- **Change of the swap-fee denomination, per denomination**: a gauge holding a remainder of 500 of the old denomination
+(an epoch without farmers) receives 300 of the NEW one: in the old denomination's ledger its deposit drops to 0 (the 500
+stay in the account, owed to nobody), in the new denomination's ledger it arrives with exactly the 300 that came in, next
+to an unrelated gauge's 1000 — both ledgers satisfy the custody inequality (instances of `custody_ge_remaining`). Relabelling
+the remainder (deposit 800 of the new denomination against 300 received) would break it: 1000 + 800 > 1300. -/
+theorem sf_denom_change_keeps_custody_per_denom :
+    run Ledger.empty [.createSf, .block [.sfTrigger 0 (.ok []) (.ok 500)], .block [.sfTrigger 0 (.ok []) (.moved 300)]]
+      = { bal := 500, gauges := [], exts := [], sfs := [{ deposit := 0, distributed := 0, triggered := 2 }] } ∧
+    run Ledger.empty [.createGauge 1000 10 1000 0 86400000000000 43200000000000 true 1000, .block [.sfArrive 300 2]]
+      = { bal := 1300, gauges := [newGauge 1000 10 1000], exts := [], sfs := [{ deposit := 300, distributed := 0, triggered := 2 }] } ∧
+    (1000 : Int) + 800 > 1300 := by
+  refine ⟨by decide, by decide, by decide⟩
 
 example : sfTrigger { deposit := 36000, distributed := 0, triggered := 1 } (.ok [35999]) (.ok 500)
     = .ok ({ deposit := 501, distributed := 35999, triggered := 2 }, [35999], 500) := by decide
